@@ -118,9 +118,20 @@ func classify(dir string, sc gxzScenario, names [3]string, orig, other, staleTmp
 }
 
 func runGxzScenario(r *Result, d *DriverPool, gxz string, sc gxzScenario, inj *injection, crash bool) {
+	// strace occasionally loses the race with the dying tracee ("ptrace(PTRACE_LISTEN…): Input/output
+	// error") and then exits with its own status: such a run says nothing about gxz and is repeated
+	for attempt := 0; attempt < 4; attempt++ {
+		if runGxzScenarioOnce(r, d, gxz, sc, inj, crash) {
+			return
+		}
+		r.Inc("strace_hiccup_retries")
+	}
+}
+
+func runGxzScenarioOnce(r *Result, d *DriverPool, gxz string, sc gxzScenario, inj *injection, crash bool) (conclusive bool) {
 	dir, err := os.MkdirTemp("", "gxzrun")
 	if err != nil {
-		return
+		return true
 	}
 	defer os.RemoveAll(dir)
 	// names
@@ -159,7 +170,7 @@ func runGxzScenario(r *Result, d *DriverPool, gxz string, sc gxzScenario, inj *i
 		}
 	}
 	other := []byte("pre-existing target\n")
-	stale := []byte("stale temporary file\n")
+	stale := bytes.Repeat([]byte("stale temporary file left by a killed run\n"), 400) // longer than any output here
 	os.WriteFile(filepath.Join(dir, inpName), orig, 0o644)
 	if sc.TgtExists && tgtName != inpName {
 		os.WriteFile(filepath.Join(dir, tgtName), other, 0o644)
@@ -222,8 +233,11 @@ func runGxzScenario(r *Result, d *DriverPool, gxz string, sc gxzScenario, inj *i
 			}
 		} else {
 			r.Violate("broken-correspondence", "cannot-run-gxz", sc, err.Error())
-			return
+			return true
 		}
+	}
+	if inj != nil && strings.Contains(stderr.String(), "strace: ptrace(") {
+		return false
 	}
 	if crash && exit != 137 {
 		// the call was never reached (e.g. the run ended earlier): behaves like no injection
@@ -271,7 +285,7 @@ func runGxzScenario(r *Result, d *DriverPool, gxz string, sc gxzScenario, inj *i
 	rep, err := d.Ask(fmt.Sprintf("gxzrun %d %d %d %d %d %s %s %s %s", b2i(sc.Mode == "decompress"), b2i(sc.Keep), b2i(sc.Force), b2i(badInput), b2i(sc.NoSuffix && sc.Mode == "decompress"), t0, m0, fault, crashStep))
 	if err != nil {
 		r.Violate("broken-correspondence", "driver", sc, err.Error())
-		return
+		return true
 	}
 	r.mu.Lock()
 	r.TracesVsImpl++
@@ -294,6 +308,7 @@ func runGxzScenario(r *Result, d *DriverPool, gxz string, sc gxzScenario, inj *i
 	if inj != nil {
 		r.Sample(map[string]interface{}{"scenario": sc.String(), "fault": fault, "crash": sc.Crash, "real": got, "model": rep})
 	}
+	return true
 }
 
 // C10: gxz never loses data.
@@ -327,7 +342,8 @@ func checkC10(a *checkArgs, r *Result) error {
 					}
 				}
 			}
-			scs = append(scs, gxzScenario{Op: "gxz-run", Mode: mode, Format: format, TmpExists: true, Input: "valid"})
+			scs = append(scs, gxzScenario{Op: "gxz-run", Mode: mode, Format: format, TmpExists: true, Input: "valid"},
+				gxzScenario{Op: "gxz-run", Mode: mode, Format: format, TmpExists: true, Force: true, Input: "valid"})
 			if mode == "decompress" {
 				scs = append(scs, gxzScenario{Op: "gxz-run", Mode: mode, Format: format, Input: "corrupt"},
 					gxzScenario{Op: "gxz-run", Mode: mode, Format: format, Input: "truncated"},
